@@ -175,7 +175,7 @@ def comm_case(rng, res, idx):
 def plan(tier, seed):
     N = tier_value(tier, 256, 1024)
     shards = tier_value(tier, 6, 12)
-    specs = [dict(kind='roundtrip', ns=list(range(1, N + 1))[i::shards], budget_s=tier_value(tier, 40, 400)) for i in range(shards)]
+    specs = [dict(kind='roundtrip', ns=list(range(1, N + 1))[i::shards], budget_s=tier_value(tier, 180, 600)) for i in range(shards)]
     nc = tier_value(tier, 160, 8000)
     cs = tier_value(tier, 4, 8)
     specs += [dict(kind='comm', first=i * (nc // cs), count=nc // cs, budget_s=tier_value(tier, 40, 300)) for i in range(cs)]
